@@ -206,12 +206,12 @@ func (m *refModel) capacity() capEst {
 // ---- one history on a fresh shedder ----
 
 type histResult struct {
-	key   string
-	info  string
+	key    string
+	info   string
 	active int // Allow decisions taken with the overload branch active (cpu over / cool-off) and requests in flight
 	sheds  int
-	err   string
-	class string
+	err    string
+	class  string
 }
 
 var cpuOverNow bool // answer of the injected systemOverloadChecker (history engine)
